@@ -7,12 +7,163 @@
 package main
 
 import (
+	"bytes"
 	"fmt"
+	"go/ast"
+	"go/constant"
+	"go/types"
 	"os"
 	"path/filepath"
+	"strings"
 
 	"verif/translator/tr"
 )
+
+// flat: the fingerprint of a root function with the bodies of the small helpers it calls
+// spliced in at the call site (robustness wave: extracting `emit`, `history`, `walkMembers`,
+// `run` ... out of walk / the producer must not change the fingerprint).  A helper is any
+// function or method of the same package that is not itself one of the roots; a helper
+// already on the expansion stack is not expanded again.  Function literals (the producer
+// goroutine) are part of the enclosing function as before.
+type flat struct {
+	p                  *tr.Pkg
+	decls              map[*types.Func]*ast.FuncDecl
+	roots              map[*ast.FuncDecl]bool
+	strs, ints, calls  []string
+	lookupCtx, doneCtx []string // see emitFlat
+	stack              map[*ast.FuncDecl]bool
+}
+
+func (f *flat) callee(c *ast.CallExpr) *ast.FuncDecl {
+	var id *ast.Ident
+	switch x := c.Fun.(type) {
+	case *ast.SelectorExpr:
+		id = x.Sel
+	case *ast.Ident:
+		id = x
+	default:
+		return nil
+	}
+	fn, ok := f.p.Info.Uses[id].(*types.Func)
+	if !ok || fn.Pkg() != f.p.Types {
+		return nil
+	}
+	return f.decls[fn]
+}
+
+func (f *flat) body(fd *ast.FuncDecl) {
+	if fd == nil || fd.Body == nil {
+		return
+	}
+	f.stack[fd] = true
+	defer delete(f.stack, fd)
+	var open []ast.Node
+	ast.Inspect(fd.Body, func(n ast.Node) bool {
+		if n == nil {
+			top := open[len(open)-1]
+			open = open[:len(open)-1]
+			if c, ok := top.(*ast.CallExpr); ok {
+				if d := f.callee(c); d != nil && !f.roots[d] && !f.stack[d] {
+					f.body(d)
+				}
+			}
+			return true
+		}
+		open = append(open, n)
+		switch x := n.(type) {
+		case *ast.BasicLit:
+			if tv := f.p.Info.Types[x]; tv.Value != nil {
+				switch tv.Value.Kind() {
+				case constant.String:
+					f.strs = append(f.strs, constant.StringVal(tv.Value))
+				case constant.Int:
+					f.ints = append(f.ints, tv.Value.ExactString())
+				}
+			}
+		case *ast.CallExpr:
+			if fun, ok := x.Fun.(*ast.SelectorExpr); ok {
+				fieldOf := func(e ast.Expr) string {
+					switch y := e.(type) {
+					case *ast.SelectorExpr:
+						return y.Sel.Name
+					case *ast.Ident:
+						return y.Name
+					}
+					return "?"
+				}
+				if fun.Sel.Name == "RelationHistory" && len(x.Args) > 0 {
+					f.lookupCtx = append(f.lookupCtx, fieldOf(x.Args[0]))
+				}
+				if fun.Sel.Name == "Done" && len(x.Args) == 0 {
+					f.doneCtx = append(f.doneCtx, fieldOf(fun.X))
+				}
+			}
+			switch fun := x.Fun.(type) {
+			case *ast.SelectorExpr:
+				if id, ok := fun.X.(*ast.Ident); ok {
+					f.calls = append(f.calls, id.Name+"."+fun.Sel.Name)
+				} else {
+					f.calls = append(f.calls, "."+fun.Sel.Name)
+				}
+			case *ast.Ident:
+				f.calls = append(f.calls, fun.Name)
+			}
+		}
+		return true
+	})
+}
+
+func emitFlat(p *tr.Pkg, keys []string) []byte {
+	var b bytes.Buffer
+	byName := p.FuncDecls()
+	decls := map[*types.Func]*ast.FuncDecl{}
+	for _, fd := range byName {
+		if fn, ok := p.Info.Defs[fd.Name].(*types.Func); ok {
+			decls[fn] = fd
+		}
+	}
+	roots := map[*ast.FuncDecl]bool{}
+	for _, k := range keys {
+		if fd := byName[k]; fd != nil {
+			roots[fd] = true
+		}
+	}
+	b.WriteString("\n(* the same with the bodies of the helpers called (functions of the package other than the\n   roots above) spliced in at the call site *)\n")
+	for _, k := range keys {
+		name := strings.ReplaceAll(k, ".", "_")
+		fd := byName[k]
+		if fd == nil {
+			fmt.Fprintf(&b, "(* MISSING %s *)\n", k)
+			continue
+		}
+		f := &flat{p: p, decls: decls, roots: roots, stack: map[*ast.FuncDecl]bool{}}
+		f.body(fd)
+		var ss, cs []string
+		for _, x := range f.strs {
+			ss = append(ss, tr.CoqString(x))
+		}
+		for _, x := range f.calls {
+			cs = append(cs, tr.CoqString(x))
+		}
+		fmt.Fprintf(&b, "Definition flat_lits_%s : list string := [%s].\n", name, strings.Join(ss, "; "))
+		fmt.Fprintf(&b, "Definition flat_ints_%s : list Z := [%s].\n", name, strings.Join(f.ints, "; "))
+		fmt.Fprintf(&b, "Definition flat_calls_%s : list string := [%s].\n", name, strings.Join(cs, "; "))
+		if k == "ChildFirstOrdering.walk" {
+			// which context the lookups are handed, and which context the send selects on:
+			// the names of the fields (or variables) -- only their equality matters
+			q := func(l []string) string {
+				var o []string
+				for _, x := range l {
+					o = append(o, tr.CoqString(x))
+				}
+				return strings.Join(o, "; ")
+			}
+			fmt.Fprintf(&b, "Definition walk_lookup_ctx : list string := [%s].\n", q(f.lookupCtx))
+			fmt.Fprintf(&b, "Definition walk_done_ctx : list string := [%s].\n", q(f.doneCtx))
+		}
+	}
+	return b.Bytes()
+}
 
 func main() {
 	repo, out := os.Args[1], os.Args[2]
@@ -27,8 +178,10 @@ func main() {
 	}
 	text := []byte("(* GENERATED by /verif/translator (cmd/order) from /repo/annotate/order.go — do not edit. *)\n" +
 		"From Coq Require Import ZArith List String.\nImport ListNotations.\nOpen Scope Z_scope.\nOpen Scope string_scope.\n\n")
-	text = append(text, tr.EmitLiterals(p, []string{"ChildFirstOrdering.walk", "NewChildFirstOrdering",
-		"ChildFirstOrdering.Next", "ChildFirstOrdering.Err", "ChildFirstOrdering.Close"})...)
+	keys := []string{"ChildFirstOrdering.walk", "NewChildFirstOrdering",
+		"ChildFirstOrdering.Next", "ChildFirstOrdering.Err", "ChildFirstOrdering.Close"}
+	text = append(text, tr.EmitLiterals(p, keys)...)
+	text = append(text, emitFlat(p, keys)...)
 	if err := tr.Emit(filepath.Join(out, "GenOrder.v"), text); err != nil {
 		fmt.Fprintln(os.Stderr, err)
 		os.Exit(1)
